@@ -359,7 +359,7 @@ def gen_schema(st, want_mutation=False, small=False,
 # --------------------------------------------------------------------------
 class FieldSel:
     __slots__ = ("name", "alias", "args", "kwargs", "sel", "dirs", "pos",
-                 "ptype", "argspec")
+                 "ptype", "argspec", "argerr")
     kind = "field"
 
     def __init__(self, name, alias=None, args=(), kwargs=None, sel=None,
@@ -373,6 +373,7 @@ class FieldSel:
         self.dirs = list(dirs)
         self.pos = None             # (line, column) filled by render()
         self.ptype = None
+        self.argerr = False         # argument coercion fails at execution
 
     @property
     def key(self):
@@ -559,6 +560,23 @@ class OpGen:
             # 0 literal, 1 variable, 2 omitted, 3 explicit null
             if mode == 2:
                 continue
+            if (a.type[0] == "L" and a.type[1][0] == "NN"
+                    and st.chance(1, 3, "nnlistvar")):
+                # ``[$v]`` with ``$v: T = default`` in a list of non-null T:
+                # valid (the default makes the nullable variable usable),
+                # but an explicit null for $v is a coercion error raised
+                # when the field's arguments are assembled -- a field error.
+                inner = a.type[1][1]
+                val = self._value(inner, st)
+                state = st.weighted((3, 2, 2), "nnlistvar_state")
+                v = self._new_var(inner, val, provided=(state != 1),
+                                  with_default=True)
+                if state == 2:
+                    self.op.vars[v].json = None
+                    self.op.vars[v].py = None
+                args.append((a.name, "[$%s]" % v))
+                argspec[a.name] = ("nnlistvar", v)
+                continue
             if mode == 3:
                 if st.chance(1, 2, "nullvar"):
                     v = self._new_var(a.type, None, provided=True)
@@ -639,10 +657,40 @@ class OpGen:
         return out
 
     # -- selections ---------------------------------------------------------
-    def gen_selset(self, tname, depth):
+    def _remerge(self, tname, depth, outer):
+        """Deliberately select again -- inside a fragment body on ``tname`` --
+        a composite field the enclosing selection set already selects, with
+        the same response key and arguments but a fresh sub-selection, so
+        that same-key merging across type-conditioned fragments is
+        exercised (heterogeneous lists then see different merged groups)."""
+        spec = self.spec
+        mine = spec.type_fields(tname)
+        cands = [
+            f for f in outer
+            if f.kind == "field" and f.sel is not None and f.name in mine
+            and not any(t.startswith(("$", "[", "{")) or t == "null"
+                        for _, t in f.args)
+        ]
+        if not cands:
+            return None
+        src = cands[self.st.below(len(cands), "remerge_pick")]
+        fdef = spec.fields[src.name]
+        self.budget -= 1
+        f = FieldSel(src.name, alias=src.alias, args=src.args,
+                     argspec=src.argspec,
+                     sel=self.gen_selset(named(fdef.type), depth - 1),
+                     dirs=self._dirs())
+        f.ptype = tname
+        return f
+
+    def gen_selset(self, tname, depth, outer=None):
         st = self.st
         spec = self.spec
         sels = []
+        if outer and depth > 0 and st.chance(1, 3, "remerge"):
+            f = self._remerge(tname, depth, outer)
+            if f is not None:
+                sels.append(f)
         n = 1 + st.below(4, "n_sel")
         if self.budget <= 0:
             n = 1
@@ -669,7 +717,7 @@ class OpGen:
             if choice == 1:
                 ci = st.below(len(conds) + 1, "cond")
                 cond = None if ci == 0 else conds[ci - 1]
-                inner = self.gen_selset(cond or tname, depth - 1)
+                inner = self.gen_selset(cond or tname, depth - 1, outer=sels)
                 if inner:
                     sels.append(InlineFrag(cond, inner, self._dirs()))
             else:
@@ -683,7 +731,7 @@ class OpGen:
                     cond = conds[st.below(len(conds), "fcond")]
                     nm = "F%d" % self.nfrag
                     self.nfrag += 1
-                    inner = self.gen_selset(cond, depth - 1)
+                    inner = self.gen_selset(cond, depth - 1, outer=sels)
                     if inner:
                         self.op.fragments[nm] = (cond, inner)
                         self.complete_frags.append((nm, cond))
@@ -760,7 +808,22 @@ class OpGen:
                 f = self._gen_field(op.root_type, self.max_depth)
                 if f is not None:
                     sels.append(f)
-            op.sel = sels or [self._gen_field(op.root_type, 1)]
+            sels = sels or [self._gen_field(op.root_type, 1)]
+            wrap = st.weighted((4, 1, 1, 1), "mut_wrap")
+            if wrap:
+                # root fields reached through a fragment: the whole list, or
+                # a suffix of it, sits inside an inline fragment / a spread
+                k = 0 if wrap == 3 else st.below(len(sels), "mut_wrap_at")
+                inner = sels[k:]
+                if wrap == 2:
+                    nm = "F%d" % self.nfrag
+                    self.nfrag += 1
+                    op.fragments[nm] = (op.root_type, inner)
+                    sels = sels[:k] + [Spread(nm)]
+                else:
+                    cond = op.root_type if st.below(2, "mut_cond") else None
+                    sels = sels[:k] + [InlineFrag(cond, inner)]
+            op.sel = sels
         else:
             op.sel = self.gen_selset(op.root_type, self.max_depth)
         if st.chance(1, 3, "named"):
@@ -826,6 +889,7 @@ def resolve_op(op, spec):
             continue
         fdef = spec.fields[s_.name]
         kw = {}
+        argerr = False
         for a in fdef.args:
             src = s_.argspec.get(a.name)
             if src is None:
@@ -836,6 +900,12 @@ def resolve_op(op, spec):
                 kw[a.name] = src[1]
                 continue
             v = vars_[src[1]]
+            if src[0] == "nnlistvar":
+                if v.provided and v.py is None:
+                    argerr = True
+                else:
+                    kw[a.name] = [v.py if v.provided else v.default_py]
+                continue
             if v.provided:
                 kw[a.name] = v.py
             elif v.default_lit is not None:
@@ -843,18 +913,20 @@ def resolve_op(op, spec):
             elif a.has_default:
                 kw[a.name] = a.default_py
         s_.kwargs = kw
+        s_.argerr = argerr
 
 
 # --------------------------------------------------------------------------
 # Renderer -- records (line, column) of every field token
 # --------------------------------------------------------------------------
 class _Out:
-    def __init__(self, multiline):
+    def __init__(self, multiline, newline="\n"):
         self.parts = []
         self.line = 1
         self.col = 1
         self.multiline = multiline
         self.indent = 0
+        self.newline = newline
 
     def w(self, s):
         self.parts.append(s)
@@ -867,15 +939,16 @@ class _Out:
 
     def sep(self):
         if self.multiline:
-            self.w("\n" + "  " * self.indent)
+            self.w(self.newline + "  " * self.indent)
         else:
             self.w(" ")
 
 
 def render(op, layout=0):
     """Render the OpSpec to text.  layout 0 = single line, 1 = indented,
-    2 = indented with commas and a leading comment."""
-    o = _Out(layout != 0)
+    2 = indented with commas and a leading comment, 3 = indented with CRLF
+    line endings (one line terminator per the specification)."""
+    o = _Out(layout != 0, "\r\n" if layout == 3 else "\n")
     if layout == 2:
         o.w("# generated\n")
 
@@ -932,11 +1005,11 @@ def render(op, layout=0):
     o.w(head)
     selset(op.sel)
     for name, (cond, sels) in op.fragments.items():
-        o.w("\n" if o.multiline else " ")
+        o.w(o.newline if o.multiline else " ")
         o.w("fragment %s on %s " % (name, cond))
         selset(sels)
     if op.extra_op:
-        o.w("\n" if o.multiline else " ")
+        o.w(o.newline if o.multiline else " ")
         o.w("query Other { __typename }")
     op.text = "".join(o.parts)
     return op.text
